@@ -8,13 +8,30 @@ HERE = os.path.dirname(os.path.dirname(os.path.abspath(__file__)))
 BASELINE = ("cd /repo && env -u JG_RP_PYTHON_JSONPATH_VERIF /venv/bin/python -m pytest -ra -q "
             "-p no:cacheprovider --timeout=900 --continue-on-collection-errors")
 
-# id -> (technique, level text, level_note, design_ref)
-CLAIMED = {
-    "C01": ("PBT: generated (query AST, document) pairs vs independent RFC 9535 reference evaluator; exhaustive small-scope enumeration of slices/indices/kinds",
-            "Exploration by generated-input search: document-guided query ASTs rendered in many RFC spellings, compared node-for-node (order, duplicates, identity) with an independent reference evaluator; slice bounds {omitted,-7..7}^3 x lengths 0..6, indices and the selector-kind x value-kind matrix are enumerated exhaustively. Cannot establish absence outside the explored space.",
-            "Trusted: the reference evaluator (validated against RFC 9535's worked examples in vf/preflight.py), the renderer's reading of the RFC ABNF, CPython/json/re/Hypothesis.",
-            "DESIGN.md 2/C01"),
-}
+import importlib
+import sys
+
+sys.path[:0] = [os.environ.get("VERIF_REPO", "/repo"), HERE, os.path.join(HERE, ".deps")]
+
+TRUST = ("Trusted: CPython, json, re, Hypothesis, the harness's reference models (vf/ref, validated against the RFCs' "
+         "worked examples by vf/preflight.py) and generators. Exploration only: absence of violations outside the "
+         "explored space is not claimed.")
+
+
+def discover():
+    claimed = {}
+    for n in range(1, 21):
+        pid = "C%02d" % n
+        try:
+            mod = importlib.import_module("vf.checks." + pid.lower())
+        except ImportError:
+            continue
+        if getattr(mod, "CLAIM", False):
+            claimed[pid] = (mod.TECHNIQUE, mod.LEVEL_TEXT, getattr(mod, "LEVEL_NOTE", TRUST), "DESIGN.md section 2, " + pid)
+    return claimed
+
+
+CLAIMED = discover()
 
 PENDING_REASON = "check not built yet in this session (planned: see DESIGN.md section 2); not claimed until it runs clean"
 
